@@ -1,9 +1,9 @@
 package zv
 
 import (
-	"os"
 	"fmt"
 	"go/types"
+	"os"
 	"strings"
 
 	"golang.org/x/tools/go/ssa"
